@@ -521,6 +521,14 @@ func runSupScenario(sc SupScenario) supResult {
 	idle := time.Duration(sc.ShutdownMs+300) * time.Millisecond
 	if sc.QuietMs > 0 {
 		time.Sleep(time.Duration(sc.QuietMs) * time.Millisecond)
+		// "at rest" means nothing is going on: on a busy machine the stimuli and the passes they cause can run
+		// late, so wait until the trace has not grown for 30 ms (2 s at most) before it is taken
+		for k := 0; k < 200; k++ {
+			if _, last := rec.snapshot(); time.Since(last) >= 30*time.Millisecond {
+				break
+			}
+			time.Sleep(10 * time.Millisecond)
+		}
 		res.quiet, _ = rec.snapshot()
 		cancel()
 	}
